@@ -4,7 +4,7 @@ that claimed checks and not_applicable always cover all 29 properties)."""
 import json, os, sys
 
 V = "/verif"
-REPO_FIX_AND_HOOK_COMMITS = ["988c6e2", "d62d56a"]
+REPO_FIX_AND_HOOK_COMMITS = ["988c6e2", "d62d56a", "ae39819"]
 
 claimed = {
     "C07": dict(cat="exploration", ref="5.1", technique="deterministic simulation: storage-fault injection on generated documents + reader delivery schedules, watchdog and memory-capped child as invariant monitors",
@@ -83,7 +83,7 @@ def main():
         "setup_cmd": "bin/build && bin/build race",
         "hooks": {
             "guard": "verif",
-            "enable": "go build -tags verif (bin/build; hook sites: iterator/session.go, builder/session.go simYield calls - since the repair d62d56a of the type-cache protocol: :miss, :locked, :stored; simhook_verif.go/simhook_off.go)",
+            "enable": "go build -tags verif (bin/build; hook sites: iterator/session.go, builder/session.go simYield calls - since the repair d62d56a of the type-cache protocol and ae39819: :miss, :stored; simhook_verif.go/simhook_off.go)",
             "baseline_off_cmd": "cd /repo && GOFLAGS=-mod=mod GOPROXY=off GOSUMDB=off GOTOOLCHAIN=local go test -vet=off -count=1 ./...",
             "source_commits": REPO_FIX_AND_HOOK_COMMITS,
             "add_only": True,
